@@ -108,24 +108,7 @@ func (c *Ctx) checkAnswerCaches() {
 			}
 		}
 	}
-	seen := map[*ssa.BasicBlock]bool{}
-	var walk func(b *ssa.BasicBlock)
-	walk = func(b *ssa.BasicBlock) {
-		if seen[b] || reset[b] {
-			return
-		}
-		seen[b] = true
-		for _, sb := range b.Succs {
-			walk(sb)
-		}
-	}
-	walk(af.Blocks[0])
-	stale := ""
-	for _, r := range successReturns(af) {
-		if seen[r.Block()] {
-			stale = c.pos(r.Pos())
-		}
-	}
+	stale := c.successBypass(af, reset)
 	c.Check(stale == "", "answer-cache-fresh", key, af.Pos(), "every successful acquire forgets the remembered era", "the era remembered from a reply (filled in "+live+") survives an acquire (return at "+stale+" without resetting it): after re-acquiring another point GetCurrentEra and every era-dependent query answer from the reply to a request made before the re-acquire")
 }
 
